@@ -553,6 +553,12 @@ def battery():
                         ('paren', None, Seq(Tok('('), Over(Call('expr')), Tok(')'))),
                         ('num', 'Num', Seq(N))]),
                ['1', ' ( 1 )', '((  12\n))', '\n (\n(\n 7 ) )']))
+    # 5b a typed rule around another typed node plus a further token, and a typed rule over a bare pattern: the node the rule RETURNS
+    #    (what the model-building action made) carries the rule's span, the inner node keeps its own
+    gs.append((G('P5b', [('start', None, Seq(Named('items', Star(Call('item'), plus=True)), Eof())),
+                         ('item', 'Item', Seq(Over(Call('num')), Tok(';'))),
+                         ('num', 'Num', Seq(N))]),
+               ['1;', ' 12 ; 3;', '\n 7\n;\n']))
     # 6 pattern after token: patterns do not skip whitespace; whitespace inside the consumed text
     gs.append((G('P6', [('start', None, Seq(Named('ls', Star(Call('line'), plus=True)), Eof())),
                         ('line', None, Seq(Named('key', W), Tok('='), Named('rest', Pat(r'[^\n]*'))))]),
